@@ -9,8 +9,12 @@
 
    All theorems are about Model/Transform.v, the model of the repaired src/transform.c (ten fix: commits); its six tables,
    the three decode table sizes, BUFFER_MALLOC_MAX and _dispatch_transform_utf8_length are the generated Gen_transform.
-   A data object is ANY list of non-empty regions of ANY sizes; `flat` is the concatenation.  Hypotheses: no empty
-   region (data.c never builds one), total size below 2^60 (2^57 / 2^58 where the output size must again be below 2^60).
+   A data object is ANY list of non-empty regions of ANY sizes; `flat` is the concatenation.  Hypotheses, all of them:
+   (1) no empty region (data.c never builds one); (2) total size below 2^60 (2^57 / 2^58 where the output size must
+   again be below 2^60); (3) `bytes (flat d)`: every element of the input is in 0..255 -- part of wf_data, i.e. of every
+   Base theorem, and an explicit premise of the two UTF-16 -> UTF-8 "accepted by the inverse" theorems (the other UTF
+   theorems hold for arbitrary integers); (4) outside the theorems: malloc does not fail (the model has no
+   allocation-failure outcome; the C code returns NULL there), little-endian host.
    There is NO hypothesis on region sizes any more: an earlier version assumed the size test of
    _dispatch_transform_buffer_new (BUFFER_MALLOC_MAX) to pass and thereby hid a genuine violation (a 90 MB UTF-16 region
    was converted to an object whose 60 MB first region the inverse rejected; UTF-8 regions above 52428799 bytes were
